@@ -98,7 +98,9 @@ func multiFlow(c, k int, srcToo bool) flowSpec {
 
 func genFlow(rng *lib.RNG) flowSpec {
 	var fs flowSpec
-	switch rng.Weighted([]int{3, 4, 3, 3}) {
+	switch rng.Weighted([]int{3, 4, 3, 3, 2}) {
+	case 4: // fan-in: the two outputs of a OneToMany node meet again at one in-port
+		fs = diamondFlow(rng.Range(0, 3), rng.Range(4, 7), 0, false) // meeting at a sink: the reference reading does not depend on which branch is first
 	case 0:
 		k := rng.Range(1, 3)
 		cs := make([]int, k)
